@@ -322,6 +322,11 @@ func addRecordToAggregations(grpReq *structs.GroupByRequest, timeHistogram *stru
 					nodeRes.StoreGlobalSearchError(fmt.Sprintf("addRecordToAggregations: Failed to get key for column %v", colKeyIndex), log.ErrorLevel, err)
 					copy(aggsKeyWorkingBuf[aggsKeyBufIdx:], sutils.VALTYPE_ENC_BACKFILL)
 					aggsKeyBufIdx += 1
+				} else if len(rawVal) == 0 {
+					// the column has no value for this record (e.g. it is absent from this block):
+					// the key still needs a part for it
+					copy(aggsKeyWorkingBuf[aggsKeyBufIdx:], sutils.VALTYPE_ENC_BACKFILL)
+					aggsKeyBufIdx += 1
 				} else {
 					copy(aggsKeyWorkingBuf[aggsKeyBufIdx:], rawVal)
 					aggsKeyBufIdx += len(rawVal)
